@@ -2737,6 +2737,10 @@ impl SctpInner {
                 .iter()
                 .find_map(|w| w.upgrade().filter(|d| d.id == channel_id))
             {
+                if dc.state.load(Ordering::SeqCst) == DataChannelState::Closed as usize {
+                    // already closed (and Close already reported): closing again is a no-op
+                    return Ok(());
+                }
                 dc.state
                     .store(DataChannelState::Closing as usize, Ordering::SeqCst);
             }
